@@ -13,27 +13,28 @@ resulting session protects the bytes and authenticates the peer is crypto/tls' b
 hypothesis `handshake` of `C21_partial`.
 -/
 import FhVerif.Proofs.TlsRoute
+import FhVerif.Gen.Facts
 
 namespace Fh.Props.C21
 open Fh Fh.Model.TlsRoute Fh.Proofs.TlsRoute
 
 /-- C21 (Client.Do): an https request is written only to a TLS connection dialled for its own host -/
-theorem https_only_over_tls_to_own_host (dialOk : Bytes → Bool) (s : St) (hinv : Inv s) (scheme host : Bytes) (keep : Bool)
-    (id : Nat) (hw : (clientDo dialOk s scheme host keep).2 = .wrote id) (hs : isHTTPS scheme = true) :
-    ∃ cn : Conn, (clientDo dialOk s scheme host keep).1.conns[id]? = some cn ∧ cn.tls = true ∧
+theorem https_only_over_tls_to_own_host (dialOk : Bytes → Bool) (s : St) (hinv : Inv s) (scheme host : Bytes) (keep cfgOk : Bool)
+    (id : Nat) (hw : (clientDo dialOk s scheme host keep cfgOk).2 = .wrote id) (hs : isHTTPS scheme = true) :
+    ∃ cn : Conn, (clientDo dialOk s scheme host keep cfgOk).1.conns[id]? = some cn ∧ cn.tls = true ∧
       cn.addr = addMissingPort host true := by
-  obtain ⟨_, _, h3, _⟩ := clientDo_spec dialOk hinv scheme host keep
+  obtain ⟨_, _, h3, _⟩ := clientDo_spec dialOk hinv scheme host keep cfgOk
   obtain ⟨cn, _, e, t, a, _, _⟩ := h3 id hw
   exact ⟨cn, e, by rw [t, hs], by rw [a, hs]⟩
 
 /-- C21 (Client.Do): an http request is written only to a plaintext connection that belongs to a plaintext
     HostClient (one of `m`, never one of `ms`), dialled for its own host -/
-theorem http_never_on_https_pool (dialOk : Bytes → Bool) (s : St) (hinv : Inv s) (scheme host : Bytes) (keep : Bool)
-    (id : Nat) (hw : (clientDo dialOk s scheme host keep).2 = .wrote id) (hs : isHTTPS scheme = false) :
-    ∃ (cn : Conn) (hc : HC), (clientDo dialOk s scheme host keep).1.conns[id]? = some cn ∧ cn.tls = false ∧
+theorem http_never_on_https_pool (dialOk : Bytes → Bool) (s : St) (hinv : Inv s) (scheme host : Bytes) (keep cfgOk : Bool)
+    (id : Nat) (hw : (clientDo dialOk s scheme host keep cfgOk).2 = .wrote id) (hs : isHTTPS scheme = false) :
+    ∃ (cn : Conn) (hc : HC), (clientDo dialOk s scheme host keep cfgOk).1.conns[id]? = some cn ∧ cn.tls = false ∧
       cn.addr = addMissingPort host false ∧
-      (clientDo dialOk s scheme host keep).1.hcs[cn.owner]? = some hc ∧ hc.isTLS = false := by
-  obtain ⟨_, _, h3, _⟩ := clientDo_spec dialOk hinv scheme host keep
+      (clientDo dialOk s scheme host keep cfgOk).1.hcs[cn.owner]? = some hc ∧ hc.isTLS = false := by
+  obtain ⟨_, _, h3, _⟩ := clientDo_spec dialOk hinv scheme host keep cfgOk
   obtain ⟨cn, hc, e, t, a, o, ot⟩ := h3 id hw
   exact ⟨cn, hc, e, by rw [t, hs], by rw [a, hs], o, by rw [ot, hs]⟩
 
@@ -51,16 +52,34 @@ theorem hostclient_writes_own_conn (dialOk : Bytes → Bool) (s : St) (hinv : In
   obtain ⟨hc, e, t, c⟩ := (hcDo_spec dialOk hinv i scheme keep).2.2.2.2.2.1 id hw
   exact ⟨hc, e, t, by rw [← t]; exact c⟩
 
+/-- C21: the TLS wrapping of a dialled connection is a function of the IsTLS flag alone: a TLS HostClient whose
+    TLS-config lookup fails (no server name derivable, none configured, verification on) gets an error and the state is
+    untouched - so the same happens on EVERY later call; nothing is dialled, nothing is written. -/
+theorem tls_config_failure_is_an_error_every_time (dialOk : Bytes → Bool) (s : St) (i : Nat) (hc : HC)
+    (hi : s.hcs[i]? = some hc) (ht : hc.isTLS = true) (hcfg : hc.cfgOk = false) (hp : hc.pool = [])
+    (scheme : Bytes) (keep : Bool) :
+    (hcDo dialOk s i scheme keep).1 = s ∧ ∀ id, (hcDo dialOk s i scheme keep).2 ≠ .wrote id := by
+  unfold hcDo
+  simp only [hi, hp, List.getLast?_nil, ht, hcfg]
+  by_cases hm : (true != isHTTPS scheme) = true
+  · simp [hm]
+  · simp [hm]
+
+/-- REGENERATED fact: the condition guarding dialAddr's tls.Client / tlsClientHandshake calls reads `isTLS` (and the
+    "already TLS" type test) and nothing else - in particular not the TLS config -/
+theorem dialAddr_wraps_iff_isTLS_flag :
+    Gen.dialAddr_tls_guard = ["isTLS", "isTLSAlready"] ∧ Gen.dialAddr_tls_guard_count = 1 := by decide
+
 /-- Client.Do itself never reports a scheme mismatch: it always picks a HostClient of the right kind -/
-theorem client_never_mismatches (dialOk : Bytes → Bool) (s : St) (hinv : Inv s) (scheme host : Bytes) (keep : Bool) :
-    (clientDo dialOk s scheme host keep).2 ≠ .mismatch :=
-  (clientDo_spec dialOk hinv scheme host keep).2.2.2
+theorem client_never_mismatches (dialOk : Bytes → Bool) (s : St) (hinv : Inv s) (scheme host : Bytes) (keep cfgOk : Bool) :
+    (clientDo dialOk s scheme host keep cfgOk).2 ≠ .mismatch :=
+  (clientDo_spec dialOk hinv scheme host keep cfgOk).2.2.2
 
 /-! ### whole runs (interleaved requests, redirect chains, LBClient) -/
 
 def schemeOf : Op → Option Bytes
-  | .newHC _ _ => none
-  | .client scheme _ _ => some scheme
+  | .newHC _ _ _ => none
+  | .client scheme _ _ _ => some scheme
   | .host _ scheme _ => some scheme
 
 /-- the event wrote its request to connection `id` -/
@@ -70,22 +89,22 @@ def Wrote (e : Op × Option Res × St) (id : Nat) : Prop := e.2.1 = some (.wrote
 def WriteOK (e : Op × Option Res × St) : Prop :=
   ∀ id, Wrote e id →
     match e.1 with
-    | .client scheme host _ =>
+    | .client scheme host _ _ =>
       ∃ cn : Conn, e.2.2.conns[id]? = some cn ∧ cn.tls = isHTTPS scheme ∧ cn.addr = addMissingPort host (isHTTPS scheme)
     | .host i scheme _ =>
       ∃ (cn : Conn) (hc : HC), e.2.2.conns[id]? = some cn ∧ e.2.2.hcs[i]? = some hc ∧ hc.isTLS = isHTTPS scheme ∧
         cn.tls = isHTTPS scheme ∧ cn.addr = hc.addr
-    | .newHC _ _ => False
+    | .newHC _ _ _ => False
 
 theorem step_inv (dialOk : Bytes → Bool) (s : St) (hinv : Inv s) (op : Op) :
     Inv (step dialOk s op).1 ∧ Ext s (step dialOk s op).1 ∧ WriteOK (op, (step dialOk s op).2, (step dialOk s op).1) := by
   cases op with
-  | newHC addr isTLS =>
-    obtain ⟨h1, h2⟩ := inv_addHC hinv ⟨addr, isTLS, []⟩ rfl
+  | newHC addr isTLS cfgOk =>
+    obtain ⟨h1, h2⟩ := inv_addHC hinv ⟨addr, isTLS, [], cfgOk⟩ rfl
     refine ⟨h1, h2, ?_⟩
     intro id hw; simp [Wrote, step] at hw
-  | client scheme host keep =>
-    obtain ⟨h1, h2, h3, _⟩ := clientDo_spec dialOk hinv scheme host keep
+  | client scheme host keep cfgOk =>
+    obtain ⟨h1, h2, h3, _⟩ := clientDo_spec dialOk hinv scheme host keep cfgOk
     refine ⟨h1, h2, ?_⟩
     intro id hw
     simp only [Wrote, step] at hw
@@ -143,8 +162,8 @@ theorem no_conn_serves_both_schemes (dialOk : Bytes → Bool) (ops : List Op)
     have := ok id hw
     obtain ⟨op, r, st⟩ := e
     cases op with
-    | newHC a t => simp [schemeOf] at hs
-    | client scheme host keep =>
+    | newHC a t c => simp [schemeOf] at hs
+    | client scheme host keep c =>
       simp only [schemeOf] at hs; injection hs with hs; subst hs
       obtain ⟨cn, e', t, _⟩ := this
       exact ⟨cn, ext.connKeep id cn e', t⟩
@@ -164,14 +183,14 @@ theorem no_conn_serves_both_schemes (dialOk : Bytes → Bool) (ops : List Op)
 def C21_full (secure : Conn → Prop) : Prop :=
   ∀ (dialOk : Bytes → Bool) (ops : List Op), ∀ e ∈ run dialOk {} ops, ∀ id, Wrote e id →
     match e.1 with
-    | .client scheme host _ =>
+    | .client scheme host _ _ =>
       ∃ cn : Conn, e.2.2.conns[id]? = some cn ∧
         (isHTTPS scheme = true → secure cn ∧ cn.addr = addMissingPort host true) ∧
         (isHTTPS scheme = false → cn.tls = false)
     | .host i scheme _ =>
       ∃ (cn : Conn) (hc : HC), e.2.2.conns[id]? = some cn ∧ e.2.2.hcs[i]? = some hc ∧ hc.isTLS = isHTTPS scheme ∧
         cn.addr = hc.addr ∧ (isHTTPS scheme = true → secure cn) ∧ (isHTTPS scheme = false → cn.tls = false)
-    | .newHC _ _ => False
+    | .newHC _ _ _ => False
 
 /-- C21 up to the handshake: if every connection that dialAddr wrapped in TLS is secure, the property holds -/
 theorem C21_partial (secure : Conn → Prop) (handshake : ∀ cn : Conn, cn.tls = true → secure cn) : C21_full secure := by
@@ -180,8 +199,8 @@ theorem C21_partial (secure : Conn → Prop) (handshake : ∀ cn : Conn, cn.tls 
   have := ok id hw
   obtain ⟨op, r, st⟩ := e
   cases op with
-  | newHC a t => exact this
-  | client scheme host keep =>
+  | newHC a t c => exact this
+  | client scheme host keep c =>
     obtain ⟨cn, e', t, a⟩ := this
     refine ⟨cn, e', ?_, ?_⟩
     · intro hs; exact ⟨handshake cn (by rw [t, hs]), by rw [a, hs]⟩
@@ -210,6 +229,11 @@ example : (run allOk {} demoOps).map (·.2.1) =
 example : (lastState allOk {} demoOps).conns =
     [⟨ofString "a.test:80", false, 0⟩, ⟨ofString "a.test:443", true, 1⟩, ⟨ofString "a.test:8443", true, 2⟩,
      ⟨ofString "a.test:80", false, 3⟩] := by decide +kernel
+/-- a TLS HostClient for "[::1]" (no port: no server name derivable, verification on): every request is refused -/
+example : ((run allOk {} [.newHC (ofString "[::1]") true false, .host 0 strHTTPS true, .host 0 strHTTPS true,
+      .host 0 strHTTPS false]).map (·.2.1)) = [none, some .err, some .err, some .err] ∧
+    (lastState allOk {} [.newHC (ofString "[::1]") true false, .host 0 strHTTPS true, .host 0 strHTTPS true]).conns = [] := by
+  decide +kernel
 example : addMissingPort (ofString "[::1]") true = ofString "[::1]:443" := by decide +kernel
 example : addMissingPort (ofString "[::1]:8080") true = ofString "[::1]:8080" := by decide +kernel
 
